@@ -4,6 +4,8 @@ import OpusProofs.SilkResampLen
 import OpusProofs.SilkResampRange
 import OpusProofs.SilkResampChunk
 import OpusProofs.SilkResampWords
+import OpusProofs.SilkResampPartKernel
+import OpusProofs.SilkResampApBound
 /-
   OpusProps.C03SilkResamp — property C03, slice SilkResamp: theorems about the bit-exact model of the SILK resampler
   (OpusModel/SilkResamp.lean; silk/resampler.c and its kernels).  Statements only; proofs in OpusProofs/SilkResamp*.lean.
@@ -142,8 +144,8 @@ example : ∀ v ∈ List.replicate 16 (-32768 : Int), I16 v := by
     the next call before it is read) is the same, for EVERY cut that leaves both parts at least 1 ms long (no alignment
     needed: one call processes `stream S xs` = the inputDelay buffered samples ++ the input without its last
     inputDelay samples, and the streams of the two calls concatenate to the stream of the one).
-    Missing: the batch kernels IIR_FIR and down_FIR, where the cut must additionally be at a whole millisecond (the
-    interpolation index restarts at every call and batch); tested on the implementation by the search, not proved. -/
+    Partial with respect to ANY cut: the batch kernels IIR_FIR and down_FIR need the cut at a whole millisecond (the
+    interpolation index restarts at every call and batch); that case is `chunk_invariance` below. -/
 theorem chunk_invariance_fold_kernels_partial (S : RS) (a b : List Int) (hI : Inv S)
     (hfn : S.cfg.fn = useCopy ∨ S.cfg.fn = useUp2HQ) (ha : S.cfg.fsIn ≤ a.length) (hb : S.cfg.fsIn ≤ b.length) :
     ∃ S1 o1 S2 o2 S12 o12, resampler S a = .ok (S1, o1) ∧ resampler S1 b = .ok (S2, o2) ∧
@@ -201,5 +203,49 @@ theorem delay_line (S : RS) (a b : List Int) (hI : Inv S) (ha : S.cfg.fsIn ≤ a
 
 example : stream (fresh ⟨3, 480, 196608, 36, 1, 48, 16, 12, 4⟩) (List.replicate 48 7) =
     List.replicate 12 0 ++ List.replicate 36 7 := by decide +kernel
+
+/-- Chunk invariance of silk_resampler, every configuration (all four kernels): whenever both parts are a whole number
+    of milliseconds (≥ 1 ms each) of int16 samples and the state satisfies `Inv`, one call on a ++ b equals a call on a
+    followed by a call on b — the outputs concatenate, and the live state (configuration, sIIR, sFIR,
+    delayBuf[0 .. inputDelay); the rest of delayBuf is overwritten by the next call before it is read) is the same.
+    For the batch kernels IIR_FIR / down_FIR this is partition independence of the batch loop: on a whole number of
+    milliseconds the loop equals the iteration of one-millisecond rounds whatever the batch size cut it into
+    (`loop_eq_msIter`), because a round on 1 ms ++ y equals the round on the millisecond followed by the round on y
+    — the interpolation index `(Fs_out_kHz + i) * invRatio_Q16` addresses the same samples and the same fractional
+    phase as `i * invRatio_Q16` one millisecond later (complete enumeration over the table,
+    `cfgTable_iirPartFacts` / `cfgTable_dnPartFacts`) — combined with the delay line (`delay_line`). -/
+theorem chunk_invariance (S : RS) (a b : List Int) (hI : Inv S) (ka kb : Nat) (hka : 1 ≤ ka) (hkb : 1 ≤ kb)
+    (ha : a.length = ka * S.cfg.fsIn) (hb : b.length = kb * S.cfg.fsIn)
+    (hxa : ∀ v ∈ a, I16 v) (hxb : ∀ v ∈ b, I16 v) :
+    ∃ S1 o1 S2 o2 S12 o12, resampler S a = .ok (S1, o1) ∧ resampler S1 b = .ok (S2, o2) ∧
+      resampler S (a ++ b) = .ok (S12, o12) ∧ o12 = o1 ++ o2 ∧ S12.cfg = S2.cfg ∧ S12.sIIR = S2.sIIR ∧
+      S12.sFIR = S2.sFIR ∧ S12.delayBuf.take S.cfg.inputDelay = S2.delayBuf.take S.cfg.inputDelay :=
+  chunk_all S a b hI ka kb hka hkb ha hb hxa hxb
+
+example : Inv (fresh ⟨3, 480, 196608, 36, 1, 48, 16, 12, 4⟩) ∧
+    (List.replicate 480 (5 : Int)).length = 10 * (fresh ⟨3, 480, 196608, 36, 1, 48, 16, 12, 4⟩).cfg.fsIn :=
+  ⟨fresh_inv (by decide), by rw [List.length_replicate]; rfl⟩
+
+/-- No signed overflow in the all-pass sections of silk_resampler_private_up2_HQ (up2_HQ.c:53-98), PARTIAL.  For every
+    history of opus_int16 inputs from a state within the magnitude invariant `ApInv` (the zero state of init is), the
+    invariant persists, and in every step the three sections of the even phase and the first two of the odd phase
+    compute the unreduced values: their silk_SUB32 / silk_SMULWB / silk_SMLAWB / silk_ADD32 never leave opus_int32 (the
+    model's `wrap32` is the identity, the C code has no signed overflow there).
+    Missing: the third section of the odd phase (coefficient -9994, gain 0.8475: the per-section magnitude invariant
+    gives 2154e6 > 2^31, the true l1 gain of the cascade is needed), the AR2 recursion of down_FIR, and the formal
+    link from `run` to the filter's input sequence (the filter is only ever fed delayBuf / in[] samples). -/
+theorem up2hq_sections_no_overflow_partial :
+    ApInv IIR.zero ∧
+    (∀ (S : IIR) (xs : List Int), ApInv S → (∀ v ∈ xs, I16 v) → ApInv (up2hq S xs).1) ∧
+    ∀ (S : IIR) (x : Int), ApInv S → I16 x →
+      apSec (Opus.SilkParams.lshift32 x 10) S.s0 1746 = apSecExact (x * 1024) S.s0 1746 ∧
+      apSec (apSecExact (x * 1024) S.s0 1746).1 S.s1 14986 = apSecExact (apSecExact (x * 1024) S.s0 1746).1 S.s1 14986 ∧
+      apSec (Opus.SilkParams.lshift32 x 10) S.s3 6854 = apSecExact (x * 1024) S.s3 6854 ∧
+      apSec (apSecExact (x * 1024) S.s3 6854).1 S.s4 25769 = apSecExact (apSecExact (x * 1024) S.s3 6854).1 S.s4 25769 ∧
+      apSec3 (apSecExact (apSecExact (x * 1024) S.s0 1746).1 S.s1 14986).1 S.s2 (-26453) =
+        apSec3Exact (apSecExact (apSecExact (x * 1024) S.s0 1746).1 S.s1 14986).1 S.s2 (-26453) :=
+  ⟨apInv_zero, up2hq_apInv, fun S x h hx => (up2hqStep_bounds S x h hx).2⟩
+
+example : hq0 0 = 1746 ∧ hq0 1 = 14986 ∧ hq0 2 = -26453 ∧ hq1 0 = 6854 ∧ hq1 1 = 25769 := by decide
 
 end OpusProps.C03SilkResamp
